@@ -489,6 +489,9 @@ func c01Seed(name string) []gts.Sequence {
 	case "gen-both":
 		s, _, _ := c01Read(c07GeneratedBoth())
 		return s
+	case "gen-rich":
+		s, _, _ := c01Read(c07GeneratedRich())
+		return s
 	}
 	return c01CorpusRecords(name)
 }
@@ -1020,7 +1023,7 @@ func init() {
 				}
 			}
 			// corpus + programs (BFS over edit operations, de-duplicated on the canonical dump of the reached records)
-			seeds := []string{"base", "gen-full", "gen-contig", "gen-both", "NC_001422_part.gb", "NC_000913.3.min.gb", "pBAT5.txt", "NC_001422.gb"}
+			seeds := []string{"base", "gen-full", "gen-contig", "gen-both", "gen-rich", "NC_001422_part.gb", "NC_000913.3.min.gb", "pBAT5.txt", "NC_001422.gb"}
 			depth := 2
 			if thorough {
 				depth = 3
@@ -1069,7 +1072,7 @@ func init() {
 			}
 			r.Extra["program_depth"] = depth
 			// streams
-			small := []string{"base", "gen-full", "gen-contig", "NC_001422_part.gb", "gen-both"}
+			small := []string{"base", "gen-full", "gen-contig", "NC_001422_part.gb", "gen-both", "gen-rich"}
 			for _, a := range small {
 				eval(c01Case{Kind: "stream", Values: []string{a}}, 2000)
 				for _, b := range small {
